@@ -119,7 +119,8 @@ class Probe(object):
         self.reads = 0
 
     def _where(self, what):
-        return '%s req.%s with headers %r' % (self.stack, what, self.sent)
+        sent = [(n, v if len(v) <= 300 else '%s...(%d characters)...%s' % (v[:80], len(v), v[-20:])) for n, v in self.sent]
+        return '%s req.%s with headers %r' % (self.stack, what, sent)
 
     def _once(self, what, fn):
         self.reads += 1
@@ -591,6 +592,17 @@ class Cookies(Suite):
 # ======================================================================== Forwarded & friends
 
 
+def _int_unlimited(digits):
+    """The number a *DIGIT string denotes, whatever its length (CPython refuses > 4300 digits unless told otherwise)."""
+    import sys
+    old = sys.get_int_max_str_digits()
+    sys.set_int_max_str_digits(0)
+    try:
+        return int(digits)
+    finally:
+        sys.set_int_max_str_digits(old)
+
+
 def _default_port(scheme):
     return 443 if scheme in ('https', 'wss') else 80
 
@@ -604,7 +616,7 @@ def expected_netloc(stack, case):
             return {'netloc': h['text'], 'host': None, 'port': None}
         port = h['port']
         return {'netloc': h['text'], 'host': h['host'],
-                'port': int(port) if port else _default_port(scheme)}
+                'port': _int_unlimited(port) if port else _default_port(scheme)}
     mode = case['server_mode']
     if stack == 'WSGI' or mode == 'present':
         name, port = case['server']
@@ -1150,4 +1162,12 @@ class ManyHeaders(Suite):
 
 
 SUITES = [ContentLength(), Range(), Dates(), ETags(), RepeatedLines(), Cookies(), ForwardedSuite(), HostUrl(), Accept(), RoundTrip(), ManyHeaders(), FuzzTotality()]
-KNOWN = {}
+
+
+def _known_f33(suite_name, case, violation):
+    """F33: a port of more than 4300 digits (Host, Forwarded for=): int() refuses, ValueError escapes the accessor."""
+    return violation.kind == 'unexpected_exception' and 'ValueError: Exceeds the limit' in violation.detail \
+        and 'integer string conversion' in violation.detail
+
+
+KNOWN = {'F33': _known_f33}
